@@ -57,6 +57,7 @@ func (c *ViewRawCommand) execute(tow io.Writer) (err error) {
 	var until whispertool.Timestamp
 	if c.Until == 0 {
 		until = whispertool.TimestampFromStdTime(time.Now())
+		until = verifNow(until)
 	} else {
 		until = c.Until
 	}
